@@ -386,7 +386,7 @@ class RF:
         return _map_poly(self.num, f) / _map_poly(self.den, f)
 
     def evalf(self, env: Optional[Dict[str, float]] = None) -> float:
-        env = dict(env or {})
+        env = type(env)(env) if isinstance(env, dict) else dict(env or {})      # a dict subclass keeps its __missing__
         env.setdefault('pi', math.pi)
         return _eval_poly(self.num, env) / _eval_poly(self.den, env)
 
@@ -650,8 +650,6 @@ _MATH = {'copysign': math.copysign, 'hypot': math.hypot, 'acos': math.acos, 'flo
 
 def _eval_atom(a: Atom, env: Dict[str, float]) -> float:
     if a.kind == 'sym':
-        if a.name not in env:
-            raise KeyError(a.name)
         return env[a.name]
     if a.kind == 'fn':
         if a.name not in _MATH:
